@@ -22,6 +22,8 @@ static Skinny128Key_t shared_ks;
 static Skinny64Key_t shared_ks64;
 static MantisKey_t shared_mk;
 static Skinny128ParallelECB_t shared_par;
+static Skinny64ParallelECB_t shared_par64;
+static MantisParallelECB_t shared_mpar;
 static uint64_t seed0 = 1;
 
 static uint64_t sm(uint64_t *s)
@@ -66,6 +68,12 @@ static void *work(void *arg)
         mantis_ecb_crypt(out, buf, &shared_mk); mantis_ecb_crypt_tweaked(out + 8, buf, key, &shared_mk); h = fnv(h, out, 16);
         skinny128_parallel_ecb_encrypt(out, buf, 16 * 13, &shared_par); h = fnv(h, out, 16 * 13);
         skinny128_parallel_ecb_decrypt(out, buf, 16 * 9, &shared_par); h = fnv(h, out, 16 * 9);
+        skinny64_parallel_ecb_encrypt(out, buf, 8 * 11, &shared_par64); h = fnv(h, out, 8 * 11);
+        skinny64_parallel_ecb_decrypt(out, buf, 8 * 21, &shared_par64); h = fnv(h, out, 8 * 21);
+        /* a shared Mantis parallel object: every thread brings its own tweaks; counts leave left-over blocks */
+        mantis_parallel_ecb_crypt(out, buf, key, 8 * 3, &shared_mpar); h = fnv(h, out, 8 * 3);
+        mantis_parallel_ecb_crypt(out, buf, buf + 300, 8 * 13, &shared_mpar); h = fnv(h, out, 8 * 13);
+        mantis_parallel_ecb_crypt(out, buf, buf + 300, 8 * 16, &shared_mpar); h = fnv(h, out, 8 * 16);
     }
     results[id] = h;
     return NULL;
@@ -82,6 +90,10 @@ int main(int argc, char **argv)
     mantis_set_key(&shared_mk, k, 16, 7, MANTIS_ENCRYPT);
     skinny128_parallel_ecb_init(&shared_par);
     skinny128_parallel_ecb_set_key(&shared_par, k, 16);
+    skinny64_parallel_ecb_init(&shared_par64);
+    skinny64_parallel_ecb_set_key(&shared_par64, k, 16);
+    mantis_parallel_ecb_init(&shared_mpar);
+    mantis_parallel_ecb_set_key(&shared_mpar, k, 16, 6, MANTIS_ENCRYPT);
     pthread_t th[NTHREADS];
     if (concurrent) {
         for (int i = 0; i < NTHREADS; ++i) pthread_create(&th[i], NULL, work, (void *)(intptr_t)i);
@@ -91,5 +103,7 @@ int main(int argc, char **argv)
     }
     for (int i = 0; i < NTHREADS; ++i) printf("thread %d digest %016llx\n", i, (unsigned long long)results[i]);
     skinny128_parallel_ecb_cleanup(&shared_par);
+    skinny64_parallel_ecb_cleanup(&shared_par64);
+    mantis_parallel_ecb_cleanup(&shared_mpar);
     return 0;
 }
